@@ -117,6 +117,35 @@ pub fn programs(tier: Tier) -> ProgramSet {
             }
         }
     }
+    // `transparent` only changes what Display / AsRefStr print: EnumString has to go on parsing such a variant by its
+    // own spellings (identifier under serialize_all, or its literals), also next to a default catch-all (seed C01-w)
+    for (kn, kind) in [("unit", crate::spec::Kind::Unit), ("tuple1", crate::spec::Kind::Tuple(vec![crate::spec::FieldTy::U8]))] {
+        for shape in 0..4usize {
+            let mut spec = EnumSpec::base(3);
+            spec.variants[1].kind = kind.clone();
+            spec.variants[1].transparent = true;
+            let what = match shape {
+                0 => "",
+                1 => {
+                    spec.variants[1].serialize = vec!["tr".into(), "Tr2".into()];
+                    " + v1.serialize=[tr,Tr2]"
+                }
+                2 => {
+                    spec.serialize_all = Some("snake_case".into());
+                    spec.variants[1].to_string = Some("shown".into());
+                    " + serialize_all=snake_case + v1.to_string=shown"
+                }
+                _ => {
+                    spec.variants[2].kind = crate::spec::Kind::Tuple(vec![crate::spec::FieldTy::Str]);
+                    spec.variants[2].default = true;
+                    " + v2.default"
+                }
+            };
+            if parse_domain(&spec) {
+                push(crate::devs::Enumerated { spec, label: format!("B3 + v1.kind={} + v1.transparent{}", kn, what), k: 2 }, &mut out);
+            }
+        }
+    }
     for (spec, label) in scale_specs() {
         push(crate::devs::Enumerated { spec, label, k: 1 }, &mut out);
     }
